@@ -153,7 +153,7 @@ func (e *env) attachGen(rng *rand.Rand, p *program) {
 // directly (uncaught; the gas sweep cuts inside the native action) and once inside a frame that reverts after the call
 // and is caught by its caller; late-failing variants inside a caught frame.  Built by rejection sampling on the same
 // argument generator, so they stay in step with it.
-var directedVariants = []string{"delegateV2", "undelegateV2", "redelegateV2", "withdraw", "approveShares", "transferShares", "transferFromShares",
+var directedVariants = []string{"delegateV2", "undelegateV2", "redelegateV2", "withdraw", "approveShares", "approveShares/zero-existing", "transferShares", "transferFromShares",
 	"crossChain/origin", "crossChain/wfx", "crossChain/tst", "crossChain/hook-token", "cancelSendToExternal", "increaseBridgeFee/origin",
 	"increaseBridgeFee/wfx", "bridgeCall/value", "bridgeCall/no-value", "bridgeCall/no-value+wfx", "bridgeCall/no-value+tst", "bridgeCall/no-value+wfx+tst",
 	"bridgeCall/value+tst", "executeClaim", "delegationRewards", "delegation", "allowanceShares", "slashingInfo", "validatorList", "bridgeCoinAmount",
@@ -397,7 +397,13 @@ func (e *env) genPre(rng *rand.Rand, p *program, nd *evmx.Node, ctx common.Addre
 	case "withdraw":
 		data, err = sabi.Pack(m, val)
 	case "approveShares":
-		data, err = sabi.Pack(m, val, common.BigToAddress(big.NewInt(int64(0x5000+nd.ID))), amt(1))
+		if mode == "ok" && rng.Intn(4) == 0 {
+			// boundary value: revoke (shares = 0) an allowance that exists (every frame contract granted one to the sink in set-up)
+			variant = m + "/zero-existing"
+			data, err = sabi.Pack(m, val, e.sink, new(big.Int))
+		} else {
+			data, err = sabi.Pack(m, val, common.BigToAddress(big.NewInt(int64(0x5000+nd.ID))), amt(1))
+		}
 	case "transferShares":
 		data, err = sabi.Pack(m, val, e.sink, amt(10))
 	case "transferFromShares":
